@@ -48,6 +48,7 @@ package eventbus
 //@   effect reentrant
 //@   unlocked
 //@ callback PublishHookContext(fn, ctx, eventType, event)
+//@   requires ctx != nil && event != nil
 //@   effect reentrant
 //@   unlocked
 //@ method Observability.OnPublishStart(obs, ctx, eventType, event)
@@ -136,20 +137,37 @@ package eventbus
 //@ guarded EventBus.lastOffset by EventBus.storeMu
 //@ level EventBus.storeMu 1
 
-//@ func EventType
-//@   trusted
+// EventTypeName is assumed to be a function of the dynamic type only.
+//@ method TypeNamer.EventTypeName(namer)
 //@   effect pure
-//@   ensures result == evName(dynType(event))
+//@   ensures result == customName(dynType(namer))
+
+//@ func EventType
+//@   props C15 C09
+//@   effect pure
+//@   requires event != nil
+//@   ensures [C15.def] result == evName(dynType(event))
 
 //@ func (*EventBus).persistEvent
-//@   props C13
-//@   requires bus != nil && ctx != nil
+//@   props C13 C09 C15 C20
+//@   requires bus != nil && ctx != nil && event != nil
 //@   ensures [C13.store.nil] bus.store == nil ==> cnt(Append) == 0 && cnt(persistErr) == 0
 //@   ensures [C13.marshal.fail] bus.store != nil && !jsonOK(event) ==>
 //@        cnt(Append) == 0 && cnt(persistErr) == ite(bus.persistenceErrorHandler != nil, 1, 0)
 //@   ensures [C13.marshal.fail.args] bus.store != nil && !jsonOK(event) && bus.persistenceErrorHandler != nil ==>
 //@        lastarg(persistErr, 1, Iface) == event && lastarg(persistErr, 2) == eventType && lastarg(persistErr, 3, Iface) != nil
 //@   ensures [C13.append.once] bus.store != nil && jsonOK(event) ==> cnt(Append) == 1
+//@   ensures [C09.record] {C09,C15} bus.store != nil && jsonOK(event) ==> lastarg(Append, 0, Iface) == bus.store &&
+//@        lastarg(Append, 2, *Event).Type == evName(dynType(event)) && lastarg(Append, 2, *Event).Data == json(event)
+//@   at call:EventStore.Append assert [C09.append.locked] {C09,C03} held(&bus.storeMu) == 2
+//@   ensures [C20.persist.pair] {C20} cnt(OnPersistStart) == ite(bus.store != nil && jsonOK(event) && bus.observability != nil, 1, 0)
+//@        && cnt(OnPersistComplete) == cnt(OnPersistStart)
+//@   ensures [C20.persist.ctx] {C20} cnt(OnPersistStart) == 1 ==> descends(lastarg(OnPersistStart, 1, Iface), ctx)
+//@        && lastarg(OnPersistComplete, 1, Iface) == lastres(OnPersistStart, Iface)
+//@        && lastarg(Append, 1, Iface) == lastres(OnPersistStart, Iface)
+//@        && lastarg(OnPersistStart, 2, String) == evName(dynType(event))
+//@   ensures [C20.persist.err] {C20} cnt(OnPersistComplete) == 1 ==> lastarg(OnPersistComplete, 3, Iface) == saveErr
+//@   at call:Observability.OnPersistComplete assert [C20.persist.order] {C20} cnt(Append) == 1
 //@   ensures [C13.append.fail] bus.store != nil && jsonOK(event) && saveErr != nil ==>
 //@        cnt(persistErr) == ite(bus.persistenceErrorHandler != nil, 1, 0)
 //@   ensures [C13.append.fail.args] bus.store != nil && jsonOK(event) && saveErr != nil && bus.persistenceErrorHandler != nil ==>
@@ -228,12 +246,14 @@ package eventbus
 //@   ensures [functional] result == bus.shards[shardIdx(eventType)] && result != nil
 
 //@ func PublishContext
-//@   props C01 C04 C05 C06 C08 C20
-//@   requires bus != nil && ctx != nil && BusInv(bus)
+//@   props C01 C04 C05 C06 C08 C20 C09
+//@   requires bus != nil && ctx != nil && BusInv(bus) && PersistInv(bus)
+//@   ensures [C09.persist.once] {C09} bus.store != nil ==> cnt(beforeHookCtx) == 1 && persists(lastarg(beforeHookCtx, 0), bus)
+//@        && lastarg(beforeHookCtx, 2) == typeOf(T) && payload(lastarg(beforeHookCtx, 3, Iface)) == event && dynType(lastarg(beforeHookCtx, 3, Iface)) == typeOf(T)
 //@   ensures [C08.hooks.once] {C08} cnt(beforeHook) == ite(bus.beforePublish != nil, 1, 0) && cnt(beforeHookCtx) == ite(bus.beforePublishCtx != nil, 1, 0)
 //@        && cnt(afterHook) == ite(bus.afterPublish != nil, 1, 0) && cnt(afterHookCtx) == ite(bus.afterPublishCtx != nil, 1, 0)
 //@   at call:PublishHook#1 assert [C08.before.first] {C08} cnt(deliver) + cnt(spawn) == 0
-//@   at call:PublishHookContext#1 assert [C08.beforeCtx.first] {C08} cnt(deliver) + cnt(spawn) == 0
+//@   at call:PublishHookContext#1 assert [C08.beforeCtx.first] {C08,C09} cnt(deliver) + cnt(spawn) == 0
 //@   at call:PublishHook#1 assert [C08.before.args] {C08} true
 //@   at call:PublishHook#2 assert [C08.after.last] {C08} rangeindex__1 == len(handlersCopy)
 //@   at call:PublishHookContext#2 assert [C08.afterCtx.last] {C08} rangeindex__1 == len(handlersCopy)
@@ -385,8 +405,8 @@ package eventbus
 
 // ---------------------------------------------------------------- publish / wait / shutdown
 //@ func Publish
-//@   props C01 C08
-//@   requires bus != nil && BusInv(bus)
+//@   props C01 C08 C09
+//@   requires bus != nil && BusInv(bus) && PersistInv(bus)
 //@   ensures [delegates] cnt(publishCtx) == 1 && lastarg(publishCtx, 0) == bus && lastarg(publishCtx, 2) == event
 //@        && lastarg(publishCtx, 1, Iface) != nil && !doneAtEntry(lastarg(publishCtx, 1, Iface))
 
@@ -433,7 +453,7 @@ package eventbus
 // first, then persists exactly once, synchronously.
 //@ func WithStore$1$1
 //@   props C09
-//@   requires bus != nil && ctx != nil
+//@   requires bus != nil && ctx != nil && event != nil
 //@   ensures [C09.persistsOnce] cnt(persistCall) == 1 && lastarg(persistCall, 0) == bus && lastarg(persistCall, 1, Iface) == ctx
 //@        && lastarg(persistCall, 2) == eventType && lastarg(persistCall, 3, Iface) == event
 //@   ensures [C09.chain] cnt(beforeHookCtx) == ite(existingHook != nil, 1, 0)
@@ -450,7 +470,7 @@ package eventbus
 // already configured: the user's hook first, then persistence, exactly once.
 //@ func WithBeforePublishContext$1$1
 //@   props C09
-//@   requires bus != nil && ctx != nil
+//@   requires bus != nil && ctx != nil && event != nil
 //@   ensures [C09.persistsOnce] cnt(persistCall) == 1 && lastarg(persistCall, 0) == bus && lastarg(persistCall, 1, Iface) == ctx
 //@        && lastarg(persistCall, 2) == eventType && lastarg(persistCall, 3, Iface) == event
 //@   ensures [C09.chain] cnt(beforeHookCtx) == ite(hook != nil, 1, 0)
@@ -522,3 +542,73 @@ package eventbus
 //@   requires bus != nil && PersistInv(bus) && bus.upcastRegistry != nil
 //@   ensures [C09.option.preserves] PersistInv(bus)
 //@   ensures [C01.option.frame] {C01} bus.shards == old(bus.shards)
+
+// ---------------------------------------------------------------- upcast registry
+//@ guarded upcastRegistry.upcasters by upcastRegistry.mu
+//@ level upcastRegistry.mu 1
+//@ immutable {C16,C17} upcastRegistry.errorHandler
+//@ initwriter WithUpcastErrorHandler$1 (*EventBus).SetUpcastErrorHandler newUpcastRegistry
+//@ event lockReg := call lock:upcastRegistry.mu
+//@ event unlockReg := call unlock:upcastRegistry.mu
+//@ event cycleCheck := call (*upcastRegistry).wouldCreateCycle
+//@ event registerCall := call (*upcastRegistry).register
+
+//@ lockinv upcastRegistry.mu(r) [UpInv.map] {C16,C17} r.upcasters != nil
+
+//@ func (*upcastRegistry).hasCycleDFS
+//@   props C16
+//@   requires r != nil && visited != nil
+//@   requires locked(&r.mu, 1)
+
+//@ func (*upcastRegistry).wouldCreateCycle
+//@   props C16
+//@   requires r != nil
+//@   requires locked(&r.mu, 1)
+
+//@ func (*upcastRegistry).register
+//@   props C16
+//@   requires r != nil
+//@   ensures [C16.reject.basic] fromType == "" || toType == "" || fromType == toType || upcast == nil ==> err != nil && cnt(lockReg) == 0
+//@   ensures [C16.cs.single] {C16,C02} cnt(lockReg) <= 1 && cnt(unlockReg) == cnt(lockReg) && cnt(cycleCheck) == cnt(lockReg)
+//@   at call:(*upcastRegistry).wouldCreateCycle assert [C16.check.locked] held(&r.mu) == 2
+//@   at unlock:upcastRegistry.mu assert [C16.register.append] err == nil ==>
+//@        len(r.upcasters[fromType]) == len(acq(r.upcasters[fromType])) + 1 &&
+//@        r.upcasters[fromType][len(r.upcasters[fromType]) - 1].FromType == fromType &&
+//@        r.upcasters[fromType][len(r.upcasters[fromType]) - 1].ToType == toType &&
+//@        r.upcasters[fromType][len(r.upcasters[fromType]) - 1].Upcast == upcast &&
+//@        (forall i int :: {r.upcasters[fromType][i]} 0 <= i && i < len(acq(r.upcasters[fromType])) ==> r.upcasters[fromType][i] == acq(r.upcasters[fromType][i]))
+//@   at unlock:upcastRegistry.mu assert [C16.register.frame] err != nil ==>
+//@        (forall t string :: len(r.upcasters[t]) == len(acq(r.upcasters[t])))
+
+//@ func (*upcastRegistry).clear
+//@   props C16
+//@   requires r != nil
+//@   at unlock:upcastRegistry.mu assert [C16.clear] forall t string :: len(r.upcasters[t]) == 0
+
+//@ func (*upcastRegistry).clearType
+//@   props C16
+//@   requires r != nil
+//@   at unlock:upcastRegistry.mu assert [C16.clearType] len(r.upcasters[eventType]) == 0 &&
+//@        (forall t string :: t != eventType ==> r.upcasters[t] == acq(r.upcasters[t]))
+
+//@ func RegisterUpcastFunc
+//@   props C16
+//@   requires bus != nil ==> bus.upcastRegistry != nil
+//@   ensures [delegates] bus != nil ==> cnt(registerCall) == 1 && lastarg(registerCall, 0) == bus.upcastRegistry && lastarg(registerCall, 1, String) == fromType
+//@        && lastarg(registerCall, 2, String) == toType && lastarg(registerCall, 3) == upcast && err == lastres(registerCall, Iface)
+//@   ensures [nilbus] bus == nil ==> err != nil && cnt(registerCall) == 0
+
+//@ func WithUpcast$1
+//@   props C09 C16
+//@   requires bus != nil && PersistInv(bus) && bus.upcastRegistry != nil
+//@   ensures [C09.option.preserves] {C09} PersistInv(bus)
+//@   ensures [C01.option.frame] {C01} bus.shards == old(bus.shards)
+//@   ensures [C16.viaRegister] {C16} cnt(registerCall) == 1
+
+//@ func (*EventBus).ClearUpcasts
+//@   props C16
+//@   requires bus != nil && bus.upcastRegistry != nil
+
+//@ func (*EventBus).ClearUpcastsForType
+//@   props C16
+//@   requires bus != nil && bus.upcastRegistry != nil
